@@ -7,6 +7,7 @@ import (
 	"fmt"
 	"reflect"
 	"sort"
+	"strconv"
 	"strings"
 
 	openfgav1 "github.com/openfga/api/proto/openfga/v1"
@@ -418,9 +419,13 @@ func observePlain(pm *openfgav1.AuthorizationModel, labels []string) (o plainObs
 			}
 		}
 	}
-	o.cycles = cycleFlags(g.GetCycles())
-	o.revCyc = cycleFlags(rev.GetCycles())
-	o.rev2Cyc = cycleFlags(rev2.GetCycles())
+	// cycle enumeration is exponential in the number of cycles (C08's subject,
+	// not C17's): only on graphs of moderate size
+	if g.Nodes().Len() <= 40 {
+		o.cycles = cycleFlags(g.GetCycles())
+		o.revCyc = cycleFlags(rev.GetCycles())
+		o.rev2Cyc = cycleFlags(rev2.GetCycles())
+	}
 	return o
 }
 
@@ -453,7 +458,7 @@ func cycleFlags(ci any) string {
 	if compile == nil || runtime == nil {
 		return ""
 	}
-	return fmt.Sprintf("{%v %v}", *compile, *runtime)
+	return "{" + strconv.FormatBool(*compile) + " " + strconv.FormatBool(*runtime) + "}"
 }
 
 // ---------------------------------------------------------------------------
@@ -715,6 +720,10 @@ func plainRunOne(b *BatchResult, prop string, seed, run uint64, nRandom int) {
 			m = fm
 			b.Mix["fixture_seeded_models"]++
 		}
+	}
+	if r.chance(2) {
+		m = genSeparatorCollision(r)
+		b.Mix["separator_collision_models"]++
 	}
 	if r.chance(25) {
 		addComputedCycle(r, m)
